@@ -74,12 +74,51 @@ pub struct RuleObs {
 pub fn impl_parse_rule(text: &str) -> ImplParse<RuleObs> {
     match catch(|| Rule::parse(text)) {
         Err(p) => ImplParse::Panic(p),
-        Ok(Ok(r)) => ImplParse::Ok(RuleObs {
-            name: r.name().to_string(),
-            description: r.description().map(|s| s.to_string()),
-            metadata: r.iter_metadata().map(|(k, v)| (k.to_string(), RV::from_value(v))).collect(),
-            expr: RE::from_expr(r.expr()),
-        }),
+        Ok(Ok(r)) => {
+            let mut metadata: BTreeMap<String, RV> = r.iter_metadata().map(|(k, v)| (k.to_string(), RV::from_value(v))).collect();
+            // the accessors of a Rule must tell one story: keyed lookup = iteration, description()
+            // = the string under "description", a clone and a rule constructed from the parts equal
+            // the parsed rule.  A disagreement is surfaced as an extra metadata entry.
+            let consistent = catch(|| {
+                let mut problems: Vec<String> = Vec::new();
+                let mut n = 0;
+                for (k, v) in r.iter_metadata() {
+                    n += 1;
+                    if r.get_metadata(k) != Some(v) {
+                        problems.push(format!("get_metadata({k:?}) differs from iter_metadata"));
+                    }
+                }
+                if n != metadata.len() {
+                    problems.push("iter_metadata yields a key twice".into());
+                }
+                for absent in ["", "no such key", "Description", "name "] {
+                    if !metadata.contains_key(absent) && r.get_metadata(absent).is_some() {
+                        problems.push(format!("get_metadata({absent:?}) finds an entry that iteration does not show"));
+                    }
+                }
+                match (r.get_metadata("description"), r.description()) {
+                    (Some(Value::String(s)), Some(d)) if s == d => {}
+                    (Some(Value::String(_)), _) => problems.push("description() differs from the string under \"description\"".into()),
+                    (None, Some(_)) => problems.push("description() without a \"description\" entry".into()),
+                    _ => {}
+                }
+                let rebuilt = Rule::new(r.name().to_string(), r.iter_metadata().map(|(k, v)| (k.to_string(), v.clone())).collect(), r.expr().clone());
+                if rebuilt != r || r.clone() != r {
+                    problems.push("Rule::new(name, metadata, expr) / clone() does not equal the parsed rule".into());
+                }
+                problems
+            });
+            match consistent {
+                Ok(p) if p.is_empty() => {}
+                Ok(p) => {
+                    metadata.insert("<accessors disagree>".into(), RV::Str(p.join("; ")));
+                }
+                Err(p) => {
+                    metadata.insert("<accessors panicked>".into(), RV::Str(p));
+                }
+            }
+            ImplParse::Ok(RuleObs { name: r.name().to_string(), description: r.description().map(|s| s.to_string()), metadata, expr: RE::from_expr(r.expr()) })
+        }
         Ok(Err(reval::parse::Error::MissingRuleName)) => ImplParse::Err(ErrKind::MissingName, "MissingRuleName".into()),
         Ok(Err(reval::parse::Error::RuleParseError(m))) => match classify(&m) {
             Some(k) => ImplParse::Err(k, m),
